@@ -51,6 +51,7 @@ pub struct Case {
     pub wseed: u64,
     pub eager_child: u64, // how many child steps are tried before each parent call (max)
     pub dt_max: u64,
+    pub long_sleep: u64, // a child `sleep` taken while the parent waits in poll may last about this long (0 = off)
     pub fault_pm: u64,
     pub string_api: bool,
     pub tiny_ok: bool, // byte-sized transfers allowed (only for small cases: keeps the event logs short)
@@ -82,6 +83,9 @@ struct CommWorld {
     rng: Rng,
     eager_child: u64,
     dt_max: u64,
+    long_sleep: u64,
+    poll_until: Option<u64>, // set while the parent waits in a poll with a timeout: the moment that poll gives up
+    in_poll: bool,
     fault_pm: u64,
     tiny_ok: bool,
     string_api: bool,
@@ -122,8 +126,20 @@ impl CommWorld {
 
     /// `childStep` of the Lean model
     fn child_step(&mut self) -> bool {
-        let (n, dt) = self.choice();
+        let (n, mut dt) = self.choice();
         let head = self.script.front().cloned();
+        if let Some(CAct::Sleep) = head {
+            // while the parent is blocked in poll the child may be silent for long (a slow child)
+            if self.in_poll && self.long_sleep > 0 && self.rng.below(2) == 0 {
+                dt = self.long_sleep / 2 + self.rng.below(self.long_sleep);
+            }
+        }
+        if let Some(u) = self.poll_until {
+            // nothing the child does after the poll has given up can be seen by that poll
+            if self.now + dt > u {
+                return false;
+            }
+        }
         let ok = match head {
             None => {
                 if self.in_rd || self.out_wr || self.err_wr {
@@ -357,7 +373,9 @@ impl Kernel for CommWorld {
             self.events.push(format!("p:{}:{}:{}:{}=e{}", callstr, n, dt, e, e));
             return Ans::Err(e);
         }
-        loop {
+        self.in_poll = true;
+        self.poll_until = if timeout_ms >= 0 { Some(self.since + timeout_ms as u64 * NS_PER_MS) } else { None };
+        let r = loop {
             let (n, dt) = self.choice();
             let ri = if fi { self.rev_in() } else { 0 };
             let ro = if fo { self.rev_out() } else { 0 };
@@ -376,7 +394,7 @@ impl Kernel for CommWorld {
                 if fds.len() > 2 {
                     fds[2].revents = re;
                 }
-                return Ans::Ret((ri != 0) as c_int + (ro != 0) as c_int + (re != 0) as c_int);
+                break Ans::Ret((ri != 0) as c_int + (ro != 0) as c_int + (re != 0) as c_int);
             }
             // nothing ready: the child moves, or time passes until the timeout
             if self.child_step() {
@@ -392,10 +410,13 @@ impl Kernel for CommWorld {
                 for f in fds.iter_mut() {
                     f.revents = 0;
                 }
-                return Ans::Ret(0);
+                break Ans::Ret(0);
             }
-            return Ans::Err(self.deadlock("poll(-1)"));
-        }
+            break Ans::Err(self.deadlock("poll(-1)"));
+        };
+        self.in_poll = false;
+        self.poll_until = None;
+        r
     }
 
     fn write(&mut self, fd: c_int, buf: &[u8]) -> Ans<usize> {
@@ -485,6 +506,15 @@ impl Kernel for CommWorld {
             self.since = self.now;
             self.events.push(format!("p:{}:{}:{}:{}=e{}", callstr, n, dt, e, e));
             return Ans::Err(e);
+        }
+        if buf.is_empty() {
+            // POSIX: a read of 0 bytes returns 0 at once and consumes nothing -- it says nothing about end-of-file.
+            // The library never needs one (it stops before reading once the size limit is reached).
+            let (n, dt) = self.choice();
+            self.now += dt;
+            self.since = self.now;
+            self.events.push(format!("p:{}:{}:{}:-=n0", callstr, n, dt));
+            return Ans::Ret(0);
         }
         loop {
             let (n, dt) = self.choice();
@@ -605,6 +635,9 @@ pub fn run_case(p: &mut Popen, c: &Case) -> CaseOut {
         rng: Rng(c.wseed),
         eager_child: c.eager_child,
         dt_max: c.dt_max,
+        long_sleep: c.long_sleep,
+        poll_until: None,
+        in_poll: false,
         fault_pm: c.fault_pm,
         tiny_ok: c.tiny_ok,
         string_api: c.string_api,
@@ -764,6 +797,16 @@ pub fn run_case(p: &mut Popen, c: &Case) -> CaseOut {
                             w.problem("C04", "TimedOut reported without any clock reading".into());
                         }
                     }
+                }
+            }
+            // C04: no later than the limit plus one bounded step -- whatever the read returned
+            if let (Some(_), Some(d)) = (tl, w.deadline) {
+                let slack = 2 * NS_PER_MS + 80 * w.dt_max;
+                if w.now > d + slack {
+                    w.problem(
+                        "C04",
+                        format!("read() with a time limit returned ({}) {} ns after the limit had expired (one round of I/O, at most {} ns here, is allowed)", tag, w.now - d, slack),
+                    );
                 }
             }
             if w.aborted {
@@ -965,6 +1008,7 @@ pub fn gen_case(rng: &mut Rng, idx: usize, big: bool) -> Case {
         wseed: rng.next(),
         eager_child: *rng.pick(&[0u64, 1, 1, 3, 8]),
         dt_max: *rng.pick(&[0u64, 1000, 300_000, 3 * NS_PER_MS, 400 * NS_PER_MS]),
+        long_sleep: *rng.pick(&[0u64, 0, 3 * NS_PER_MS, 60 * NS_PER_MS, 1500 * NS_PER_MS]),
         fault_pm: *rng.pick(&[0u64, 0, 0, 0, 15]),
         string_api,
     }
